@@ -92,10 +92,14 @@ FUNCS = ['exp', 'log', 'sqrt', 'sin', 'cos', 'tan', 'sinh', 'cosh', 'tanh', 'cot
          'arctan', 'arcsinh', 'arccosh', 'arctanh', 'expm1', 'log1p', 'log2', 'log10', 'exp2']
 
 
-def rand_bc(rng, lo, hi, Bicomplex):
+def rand_bc(rng, lo, hi, Bicomplex, pattern=None):
+    """pattern: which of the three non-real components are perturbed (None: all); zeros are exact zeros,
+    e.g. the first-derivative point x + i h (z2 = 0) or a purely imaginary z2"""
     x = float(rng.uniform(lo, hi))
     s = max(1.0, abs(x))
     h = [float(10.0 ** rng.uniform(-8, -1) * s * rng.choice([-1, 1])) for _ in range(3)]
+    if pattern is not None:
+        h = [hv if (pattern >> i) & 1 else 0.0 for i, hv in enumerate(h)]
     return Bicomplex(x + 1j * h[0], h[1] + 1j * h[2]), [x, h[0], h[1], h[2]]
 
 
@@ -126,7 +130,11 @@ def semantic(ctx, N):
     for k in range(N):
         for name in FUNCS:
             lo, hi = DOMAIN.get(name, (-2.0, 2.0))
-            z, comps = rand_bc(rng, lo, hi, Bicomplex)
+            if name in ('tan', 'sec') and k % 3 == 1:
+                lo, hi = 1.8, 2.9            # cos < 0
+            if name in ('cot', 'csc', 'coth', 'csch') and k % 3 == 1:
+                lo, hi = -hi, -lo            # negative arguments
+            z, comps = rand_bc(rng, lo, hi, Bicomplex, pattern=(None if k % 2 == 0 else (k // 2) % 8))
             try:
                 got = getattr(z, name)()
             except Exception as ex:  # noqa
@@ -135,8 +143,9 @@ def semantic(ctx, N):
             ctx.count(1, ('semantic', name))
             compare(name, got, reference(mpm, name, comps), comps)
         # operators
-        a, ca = rand_bc(rng, -2, 2, Bicomplex)
-        b, cb = rand_bc(rng, 0.3, 2, Bicomplex) if k % 2 else rand_bc(rng, -2, -0.3, Bicomplex)
+        pat = None if k % 3 == 0 else (k // 3) % 8
+        a, ca = rand_bc(rng, -2, 2, Bicomplex, pattern=pat)
+        b, cb = rand_bc(rng, 0.3, 2, Bicomplex, pattern=pat) if k % 2 else rand_bc(rng, -2, -0.3, Bicomplex, pattern=pat)
         for name, fn in (('add', lambda: a + b), ('sub', lambda: a - b), ('mul', lambda: a * b), ('div', lambda: a / b)):
             ctx.count(1, ('semantic', name))
             compare(name, fn(), reference(mpm, name, ca, cb), ca, cb)
